@@ -75,13 +75,19 @@ async fn name_cell(addr: SocketAddr, set: Arc<CertSet>, role: String, ns: String
     let class = format!("role={role}");
     let want = reference(&ns, &tp);
     let raw = RawConn::connect(addr, &set.ca, Some(&set.client)).await.map_err(|e| fail("setup", "connect", e.to_string()))?;
-    let (_s, first) = raw
+    let (mut _s, first) = raw
         .register(register_frame(&role, TopicName::_create_unchecked(&ns, &tp)))
         .await
         .map_err(|e| fail("unanswered", &class, format!("registration as {role} on ({ns:?},{tp:?}): {e}")))?;
     match (first, want) {
         (Some(Frame::Ok), V::Accept) | (Some(Frame::Ok), V::Either) => Ok("accepted".into()),
-        (Some(Frame::Error(e)), V::Reject) | (Some(Frame::Error(e)), V::Either) if e.code == INVALID_TOPIC_NAME => Ok("refused-invalid-topic".into()),
+        (Some(Frame::Error(e)), V::Reject) | (Some(Frame::Error(e)), V::Either) if e.code == INVALID_TOPIC_NAME => {
+            // a refusal is final: nothing but the end of the stream may follow it
+            match net::next_frame(&mut _s, Duration::from_millis(250)).await {
+                Ok(Some(f)) => Err(fail("served-after-refusal", &class, format!("({ns:?},{tp:?}) was refused with the invalid-topic error and then the server sent {f:?} on the same stream"))),
+                _ => Ok("refused-invalid-topic".into()),
+            }
+        }
         (Some(Frame::Ok), V::Reject) => Err(fail("server-accepted-invalid-name", &class, format!("the server created/joined topic ({ns:?},{tp:?}) which the grammar rejects"))),
         (Some(Frame::Error(e)), V::Accept) => Err(fail("server-rejected-valid-name", &class, format!("valid name ({ns:?},{tp:?}) refused with code {}", e.code))),
         (Some(Frame::Error(e)), _) => Err(fail("wrong-error-code", &class, format!("({ns:?},{tp:?}) refused with code {} instead of the invalid-topic code", e.code))),
